@@ -369,7 +369,12 @@ func (db *DB) schema(of Object) (s *Schema, err error) {
 		return
 	}
 
-	return db.loadSchema(of)
+	// the call which loads the schema may be the one which queues a
+	// write, and the last one for long
+	if s, err = db.loadSchema(of); err == nil {
+		db.startAsyncWritesRoutine(s)
+	}
+	return
 }
 
 func (db *DB) itemname(o Object) string {
